@@ -46,6 +46,8 @@ def generalize(path: str) -> str:
         if i >= 2 and i % 2 == 0 and parts[1] in ('words', 'senses', 'synsets', 'lexicons') \
                 and i == 2:
             out.append('*')
+        elif i >= 4 and parts[i - 1] == 'requires':
+            out.append('*')
         else:
             out.append(re.sub(r'\[\d+\]', '[*]', p))
     return '/'.join(out)
@@ -253,6 +255,10 @@ class Sim:
     def after_op(self, op):
         st = observe.digest([self.m.installed, sorted(self.m.ilis)])
         self.stats['states'].add(st)
+        if os.environ.get('VERIF_DIGEST_STATE') == '1':
+            # determinism self-test: the event log also carries what was observed
+            d = observe.logical_dump(self.W.dbpath())
+            self.W.log(step=self.step, observed=observe.digest([d['lexicons'], d['shared']]))
         if 'installed' in self.oracles:
             self.check_installed()
         if 'image' in self.oracles:
@@ -338,6 +344,8 @@ class Sim:
         a = observe.logical_dump(W.dbpath())
         b = observe.logical_dump(fresh)
         self.probe('fresh-compare')
+        a['lexicons'].setdefault('*ownerless*', {})
+        b['lexicons'].setdefault('*ownerless*', {})
         ka, kb = set(a['lexicons']), set(b['lexicons'])
         if ka != kb:
             raise self.violation('fresh', 'owners of rows differ from a fresh database',
